@@ -99,7 +99,7 @@ def run_case(case, ctx):
         # the writer's own index file sits beside the data file: reading by path goes through it
         import os
         from nptdms import TdmsFile
-        path = os.path.join(ctx.tmpdir, 'prog.tdms')
+        path = os.path.join(ctx.tmpdir, prog.fname)
         ctx.count('read_back_through_writer_index')
         try:
             a = C.snapshot(TdmsFile.read(io.BytesIO(data)))
